@@ -445,21 +445,29 @@ class Real:
 
 
 def oracle(real: Real, tags: set):
+    """All misclassifications of the run, one per defect class (see key_of)."""
+    bads, seen = [], set()
+
+    def add(b):
+        k = key_of(real.case, b)
+        if k not in seen:
+            seen.add(k)
+            bads.append(b)
+
     for idx, (line, where, h, truth, text) in enumerate(real.records):
         if any(isinstance(x, str) for x in h):
-            return dict(rec=idx, line=line, where=where, truth=truth, what=f"a helper raised: {h}", text=text, h=h)
+            add(dict(rec=idx, line=line, where=where, truth=truth, what=f"a helper raised: {h}", text=text, h=h))
+            continue
         verdicts = [n for n, v in zip(("new", "suspended", "finished"), h) if v]
         got = verdicts[0] if len(verdicts) == 1 else ("executing" if not verdicts else "+".join(verdicts))
         if got != truth:
-            return dict(rec=idx, line=line, where=where, truth=truth, got=got, text=text, h=h,
-                        what=f"{real.kind}: after/inside `{line}` ({where}) the helpers say {got} "
-                             f"(new,suspended,finished={h}) but the object is {truth}")
+            add(dict(rec=idx, line=line, where=where, truth=truth, got=got, text=text, h=h,
+                     what=f"{real.kind}: after/inside `{line}` ({where}) the helpers say {got} "
+                          f"(new,suspended,finished={h}) but the object is {truth}"))
         if where == "inside-top":
             tags.add("observed-executing")
         if where == "inside-nested":
             tags.add("observed-executing-from-callee")
-        if truth == "finished" and " f0" not in " " + text:
-            pass
     for o, line in zip(real.outs, real.lines):
         if o["resp"] == "yield":
             tags.add("paused-at-yield")
@@ -475,7 +483,7 @@ def oracle(real: Real, tags: set):
             tags.add("executing-with-ag_running-clear")
     if real.H.killed:
         tags.add("closed-before-start")
-    return None
+    return bads
 
 
 def judge(case):
@@ -493,16 +501,33 @@ def shrink(case, bad):
     key = key_of(case, bad)
 
     def fails(c):
-        b = judge(c)[2]
-        return b is not None and key_of(c, b) == key
+        return any(key_of(c, b) == key for b in judge(c)[2])
+
+    def one_by_one(lst, mk):
+        i = 0
+        while i < len(lst):
+            cand = lst[:i] + lst[i + 1:]
+            if fails(mk(cand)):
+                lst = cand
+            else:
+                i += 1
+        return lst
 
     cur = dict(case)
     if len(cur["ops"]) >= 2:
         cur["ops"] = core.ddmin(cur["ops"], lambda ops: fails(dict(cur, ops=ops)))
+    cur["ops"] = one_by_one(cur["ops"], lambda ops: dict(cur, ops=ops))
     items = cur["script"].split()
     if len(items) >= 2:
         items = core.ddmin(items, lambda it: fails(dict(cur, script=" ".join(it))))
-        cur["script"] = " ".join(items)
+    items = one_by_one(items, lambda it: dict(cur, script=" ".join(it)))
+    for i, w in enumerate(items):          # drop handler policies that do not matter
+        if ":" in w:
+            cand = items[:i] + [w.split(":")[0]] + items[i + 1:]
+            if fails(dict(cur, script=" ".join(cand))):
+                items = cand
+    cur["script"] = " ".join(items)
+    cur["ops"] = one_by_one(cur["ops"], lambda ops: dict(cur, ops=ops))    # the smaller script may need fewer ops
     return cur
 
 
@@ -553,18 +578,18 @@ def model_lines(real: Real):
 def explore(ctx, cases, label=""):
     all_lines, spans, reals = [], [], []
     for case in cases:
-        real, tags, bad = judge(case)
+        real, tags, bads = judge(case)
         ctx.case(case_text(case), sorted(tags))
         ctx.tag("kind-" + case["kind"])
-        if bad is not None:
+        for bad in bads:
             k0 = key_of(case, bad)
             if any(v["key"] == k0 for v in ctx.violations):
                 ctx.violation(k0, "", None)
             else:
                 small = shrink(case, bad)
-                r2, _, b2 = judge(small)
+                b2 = next((b for b in judge(small)[2] if key_of(small, b) == k0), None)
                 if b2 is None:
-                    small, r2, b2 = case, real, bad
+                    small, b2 = case, bad
                 ctx.violation(key_of(small, b2), label + b2["what"],
                               dict(small, failing_op=b2["line"], observed_from=b2["where"], attributes=b2["text"]),
                               expected=b2["truth"], observed=b2.get("got"),
